@@ -18,6 +18,7 @@ acceptance and result on mutated inputs against ``parse``.
 from __future__ import annotations
 
 import copy
+import enum
 import json
 from typing import Any, Dict, List, Optional, Tuple
 
@@ -52,10 +53,53 @@ QTY_MU_POOL = [[5, "km/h"], [2.5, "meter"], [3, "kg m"], [-1.5, "eV"], [7, "m"],
 LIT_POOLS = [["a", "b", "c"], ["single_crystal", "bi_crystal", "poly_crystal"], [1, 2, 3], ["x", 5],
              [True], ["on", "off"], ["yes"], [0, "zero"]]
 CONST_VALUES = ["x", "Dataset", 3, True, 2.5, [1, 2], {"a": 1, "b": ["c"]}, "https://w3id.org/ro/crate/1.1/context"]
-ATOMS = ["int", "float", "bool", "str", "nestr", "lit", "dur", "unit", "qty"]
-ATOM_W = [2, 2, 1, 2, 2, 1, 3, 3, 3]
+ATOMS = ["int", "float", "bool", "str", "nestr", "lit", "dur", "unit", "qty", "enum"]
+ATOM_W = [2, 2, 1, 2, 2, 2, 3, 3, 3, 2]
 STRINGY = ["str", "nestr", "lit", "dur", "unit", "qty"]
 ALIASES = ["@id", "@value", "x-{n}", "{n}Alias", "with space {n}", "@{n}"]
+
+
+class Kind(enum.Enum):            # plain Enum
+    raw = "RAW"
+    cooked = "COOKED"
+    mixed = "mixed data"
+
+
+class SKind(str, enum.Enum):       # str-mixin Enum
+    a = "A"
+    b = "B"
+    c = "c c"
+
+
+class IKind(enum.IntEnum):
+    one = 1
+    two = 2
+    ten = 10
+
+
+ENUMS = {"Kind": Kind, "SKind": SKind, "IKind": IKind}
+
+
+def is_enum_marker(v):
+    return isinstance(v, dict) and "$enum" in v
+
+
+def const_json(v):
+    """JSON value a constant shows in the output (an enum member shows its value)."""
+    if is_enum_marker(v):
+        return ENUMS[v["$enum"]][v["m"]].value
+    if isinstance(v, enum.Enum):
+        return v.value
+    return v
+
+
+def const_py(v):
+    return ENUMS[v["$enum"]][v["m"]] if is_enum_marker(v) else copy.deepcopy(v)
+
+
+def enum_marker(rng, ename=None):
+    ename = ename or rng.choice(sorted(ENUMS))
+    return {"$enum": ename, "m": rng.choice([m.name for m in ENUMS[ename]])}
 
 
 def _hist(it):
@@ -72,6 +116,8 @@ def gen_atom(rng, kinds=None):
     k = rng.choices(ATOMS, ATOM_W)[0] if kinds is None else rng.choice(kinds)
     if k == "lit":
         return ["lit"] + list(rng.choice(LIT_POOLS))
+    if k == "enum":
+        return ["enum", rng.choice(sorted(ENUMS))]
     return k
 
 
@@ -135,6 +181,8 @@ def simple_default(rng, t):
         return True, rng.choice(["abc", "dflt value"])
     if isinstance(t, list) and t[0] == "lit":
         return True, t[1]
+    if isinstance(t, list) and t[0] == "enum":
+        return True, list(ENUMS[t[1]])[0].value
     if isinstance(t, list) and t[0] in ("list", "set"):
         return True, []
     if isinstance(t, list) and t[0] == "dict":
@@ -142,10 +190,13 @@ def simple_default(rng, t):
     return False, None
 
 
-def gen_class(rng, name, objs, bases, used_names):
-    """One class spec.  Fields: [name, alias, type, has_default, default(json)]."""
+def gen_class(rng, name, objs, bases, used_names, force_first=None, force_base=None):
+    """One class spec.  Fields: [name, alias, type, has_default, default(json)].
+    "spec": inherited enum/Literal-typed fields turned into constants (the marked-subclass pattern)."""
     base = None
-    if bases and rng.random() < 0.22:
+    if force_base:
+        base = force_base
+    elif bases and rng.random() < 0.22:
         base = rng.choice(bases)
     nf = rng.randint(1, 6)
     fields = []
@@ -158,7 +209,9 @@ def gen_class(rng, name, objs, bases, used_names):
         taken.add(n)
         t = gen_complex(rng, objs)
         has_d, d = False, None
-        if rng.random() < 0.45:
+        if i == 0 and force_first is not None:
+            t = force_first
+        elif rng.random() < 0.45:
             t = ["opt", t]
             if rng.random() < 0.15:
                 has_d, d = simple_default(rng, t[1])
@@ -172,7 +225,7 @@ def gen_class(rng, name, objs, bases, used_names):
         elif rng.random() < 0.3:
             has_d, d = simple_default(rng, t)
         a = n
-        if rng.random() < 0.25:
+        if rng.random() < 0.25 and not (i == 0 and force_first is not None):
             a = rng.choice(ALIASES).format(n=n)
             if a in alias_taken:
                 a = n
@@ -193,21 +246,44 @@ def gen_class(rng, name, objs, bases, used_names):
     elif r < 0.55:
         for k in rng.sample(["kind", "schemaVersion", "flag", "meta", "@type", "ratio"], rng.randint(1, 3)):
             if k not in field_keys:
-                consts.append([k, rng.choice(CONST_VALUES)])
+                consts.append([k, enum_marker(rng) if rng.random() < 0.3 else rng.choice(CONST_VALUES)])
+    # specialise inherited enum / Literal fields by a constant (no override flag needed for these)
+    spec = []
+    specable = dict(binfo.get("specable", {}))
+    for fn in sorted(specable):
+        if rng.random() < 0.7:
+            ft = specable.pop(fn)
+            inner = ft[1] if ft[0] == "opt" else ft
+            spec.append([fn, enum_marker(rng, inner[1]) if inner[0] == "enum" else rng.choice(inner[1:])])
+    for f in fields:
+        inner = f[2][1] if (isinstance(f[2], list) and f[2][0] == "opt") else f[2]
+        if f[0] == f[1] and isinstance(inner, list) and inner[0] in ("enum", "lit"):
+            specable[f[0]] = f[2]
     forbid = (base is None) and rng.random() < 0.15
     allopt = all(f[3] or (isinstance(f[2], list) and f[2][0] == "opt") for f in fields) and (base is None or binfo.get("allopt"))
-    used_names[name] = {"allopt": bool(allopt), "fields": sorted(field_keys),
-                        "consts": sorted(set(binfo["consts"]) | {k for k, _ in consts} | ({"@" + k for k in ld} if ld else set()))}
-    return {"name": name, "base": base, "fields": fields, "consts": consts, "ld": ld, "forbid": forbid}
+    used_names[name] = {"allopt": bool(allopt), "fields": sorted(field_keys), "specable": specable,
+                        "consts": sorted(set(binfo["consts"]) | {k for k, _ in consts} | {k for k, _ in spec}
+                                         | ({"@" + k for k in ld} if ld else set()))}
+    return {"name": name, "base": base, "fields": fields, "consts": consts, "ld": ld, "forbid": forbid, "spec": spec}
 
 
 def gen_universe(rng, uid):
     """1-3 classes; later ones may nest or inherit earlier ones; the last one is the main class."""
     n = rng.choice([1, 1, 2, 2, 3])
     classes, objs, bases, used = [], [], [], {}
+    marked = rng.random() < 0.15      # the documented "marked subclass" pattern: Child specialises Base.kind
+    if marked:
+        n = max(n, 2)
     for i in range(n):
         name = f"G{uid}x{i}"
-        c = gen_class(rng, name, list(objs), [b for b in bases], used)
+        if marked and i == n - 2:
+            ft = rng.choice([["enum", "Kind"], ["enum", "SKind"], ["enum", "IKind"], ["lit", "p", "q"], ["opt", ["enum", "Kind"]]])
+            c = gen_class(rng, name, list(objs), [], used, force_first=ft)
+            c["forbid"] = False
+        elif marked and i == n - 1:
+            c = gen_class(rng, name, list(objs), [], used, force_base=classes[-1]["name"])
+        else:
+            c = gen_class(rng, name, list(objs), [b for b in bases], used)
         classes.append(c)
         objs.append(name)
         if not c["forbid"]:
@@ -224,7 +300,8 @@ def env_of(uni):
 def flat_fields(env, name):
     c = env[name]
     base = flat_fields(env, c["base"]) if c["base"] else []
-    return base + c["fields"]
+    gone = {k for k, _ in c.get("spec", [])}
+    return [f for f in base if f[0] not in gone] + c["fields"]
 
 
 def flat_consts(env, name):
@@ -234,7 +311,9 @@ def flat_consts(env, name):
         for k, v in c["ld"].items():
             d["@" + k] = v
     for k, v in c["consts"]:
-        d[k] = v
+        d[k] = const_json(v)
+    for k, v in c.get("spec", []):
+        d[k] = const_json(v)
     return d
 
 
@@ -332,6 +411,8 @@ def gen_input(rng, env, t, depth=0, py=False):
     k = t[0]
     if k == "lit":
         return rng.choice(t[1:])
+    if k == "enum":
+        return rng.choice(list(ENUMS[t[1]])).value
     if k == "opt":
         return gen_input(rng, env, t[1], depth, py)   # presence is decided at field level
     if k == "union":
@@ -361,6 +442,10 @@ def gen_obj_input(rng, env, name, depth=0, explicit_none=False, py=False):
             continue
         key = n if (a != n and rng.random() < 0.15) else a
         d[key] = gen_input(rng, env, t, depth, py)
+    for k_, v_ in env[name].get("spec", []):       # sometimes state the specialised constant (right or other value)
+        if rng.random() < 0.3:
+            d[k_] = const_json(v_) if rng.random() < 0.5 else (
+                rng.choice(list(ENUMS[v_["$enum"]])).value if is_enum_marker(v_) else "q")
     return d
 
 
@@ -416,7 +501,7 @@ WRONG = [77, 1.5, True, "zz", "  ", "", [], {}, [1], ["a"], {"a": 1}, None, "PT1
 def _has_lit(env, t):
     if isinstance(t, str):
         return False
-    if t[0] == "lit":
+    if t[0] in ("lit", "enum"):
         return True
     if t[0] in ("opt", "list", "set"):
         return _has_lit(env, t[1])
@@ -614,7 +699,7 @@ def default_tval(env, t, d):
         return ["b", "T" if d else "F"]
     if t in ("str", "nestr"):
         return ["s", d]
-    if t[0] == "lit":
+    if t[0] in ("lit", "enum"):
         return ["lit", jsx(d)]
     if t[0] == "list":
         return ["list"]
@@ -629,6 +714,8 @@ def model_ty(env, t):
     k = t[0]
     if k == "lit":
         return ["lit"] + [jsx(v) for v in t[1:]]
+    if k == "enum":       # an enum-typed field holds the member's value (use_enum_values)
+        return ["lit"] + [jsx(m.value) for m in ENUMS[t[1]]]
     if k in ("opt", "list", "set"):
         return [k, model_ty(env, t[1])]
     if k == "union":
@@ -718,6 +805,8 @@ def pytype(env_cls, t):
     k = t[0]
     if k == "lit":
         return Literal[tuple(t[1:])]
+    if k == "enum":
+        return ENUMS[t[1]]
     if k == "opt":
         return TOpt[pytype(env_cls, t[1])]
     if k == "union":
@@ -764,7 +853,9 @@ def build_classes(uni):
         if c["ld"]:
             cls = ld(**c["ld"])(cls)
         if c["consts"]:
-            cls = add_const_fields({k: copy.deepcopy(v) for k, v in c["consts"]}, override=True)(cls)
+            cls = add_const_fields({k: const_py(v) for k, v in c["consts"]}, override=True)(cls)
+        if c.get("spec"):
+            cls = add_const_fields({k: const_py(v) for k, v in c["spec"]})(cls)
         out[c["name"]] = cls
     return out
 
@@ -801,6 +892,10 @@ def to_tval(env, t, v):
     if k == "lit":
         if not any(type(v) is type(x) and v == x for x in t[1:]):
             raise Untaggable(f"literal field holds {v!r}")
+        return ["lit", jsx(v)]
+    if k == "enum":
+        if not any(type(v) is type(m.value) and v == m.value for m in ENUMS[t[1]]):
+            raise Untaggable(f"enum field holds {v!r} ({type(v).__name__})")
         return ["lit", jsx(v)]
     if k == "opt":
         return "none" if v is None else ["some", to_tval(env, t[1], v)]
@@ -854,8 +949,8 @@ def load_text(text, form):
         text = text.decode("utf-8")
     if form in ("json", "bytes"):
         return json.loads(text)
-    import yaml
-    return yaml.safe_load(text)
+    from ruamel.yaml import YAML      # YAML 1.2, as emitted (PyYAML is YAML 1.1: on/off/yes/no would read as booleans)
+    return YAML(typ="safe", pure=True).load(text)
 
 
 def consts_in_text(inst, tv, path=""):
@@ -869,6 +964,7 @@ def consts_in_text(inst, tv, path=""):
             return [{"path": path, "problem": f"schema value printed as {type(tv).__name__}"}]
         consts = getattr(cls, "__constants__", None) or {}
         for k, v in consts.items():
+            v = const_json(v)
             if k not in tv or tv[k] != v:
                 out.append({"path": path, "const": k, "expected": v, "got": tv.get(k, "<absent>")})
         for name, f in type(inst).__fields__.items():
@@ -896,6 +992,7 @@ NONCANON: List[Dict[str, str]] = []   # per worker process: equal after a round 
 
 def oracle_instance(S, obj, consts, setfree, check_eq=True):
     """The property's oracle on one instance, code alone.  Returns (problems, reparsed object)."""
+    consts = {k: const_json(v) for k, v in consts.items()}
     probs = []
     back = None
     texts = {}
@@ -1888,6 +1985,9 @@ def run(ctx: vlib.Ctx):
         "universes": n_uni, "generated_classes": n_classes, "main_classes": len(per_class_built),
         "instances_built": built, "min_instances_per_main_class": min(per_class_built) if per_class_built else 0,
         "field_type_histogram": type_hist, "installed": inst_summary,
+        "classes_specialising_inherited_enum_or_literal_field": sum(1 for j in jobs for c in j["uni"]["classes"] if c.get("spec")),
+        "classes_with_enum_member_constants": sum(1 for j in jobs for c in j["uni"]["classes"]
+                                                  if any(is_enum_marker(v) for _k, v in c["consts"] + c.get("spec", []))),
         "mutants": len(pcases), "parser_agreement": acc, "explicit_none_instances": n_expl,
         "object_built_noncanonical_instances": n_noncanon, "universes_code_only_dict_fields": n_code_only,
         "all_build_modes": _hist(rec["how"] for res in results if res["status"] == "ok" for rec in res["instances"] if rec.get("built")), "build_modes": _hist(rec["how"] for _j, rec in dmeta),
